@@ -6,7 +6,7 @@
 //! pointer positions around the edges of 1- and 3-page mappings (r-x, --x, ---p) x thread count.
 //! Oracle: address-derived pattern / the target's memory, read back through /proc/<pid>/mem.
 
-use crate::dump::{dump_mem, CrashSpec, DumpOpts, DumpResult, DIM_RIP, DIM_RSP};
+use crate::dump::{CrashSpec, DumpOpts, DumpResult, DIM_RIP, DIM_RSP};
 use crate::puppet::{Kind, Puppet};
 use crate::shapes::par_map;
 use crate::Ctx;
@@ -61,11 +61,13 @@ pub struct Case {
     ip: Option<(usize, i64)>,
     /// dump with a size limit that is certainly exceeded
     limit: bool,
+    /// remote-memory strategy forced for the whole dump: 0 default (vectored read), 1 /proc/<pid>/mem, 2 ptrace
+    strategy: u8,
 }
 
 impl Case {
     fn to_json(&self) -> Value {
-        json!({"n": self.n, "limit": self.limit, "app": self.app.iter().map(|(r, o, l)| json!([r, o, l])).collect::<Vec<_>>(), "ip": self.ip.map(|(m, o)| json!([m, o]))})
+        json!({"n": self.n, "limit": self.limit, "strategy": self.strategy, "app": self.app.iter().map(|(r, o, l)| json!([r, o, l])).collect::<Vec<_>>(), "ip": self.ip.map(|(m, o)| json!([m, o]))})
     }
     fn from_json(v: &Value) -> Option<Case> {
         Some(Case {
@@ -73,6 +75,7 @@ impl Case {
             app: v.get("app")?.as_array()?.iter().filter_map(|a| Some((a.get(0)?.as_u64()? as u8, a.get(1)?.as_i64()?, a.get(2)?.as_u64()?))).collect(),
             ip: v.get("ip").and_then(|i| Some((i.get(0)?.as_u64()? as usize, i.get(1)?.as_i64()?))),
             limit: v.get("limit").and_then(|l| l.as_bool()).unwrap_or(false),
+            strategy: v.get("strategy").and_then(|l| l.as_u64()).unwrap_or(0) as u8,
         })
     }
 }
@@ -109,7 +112,11 @@ pub fn run_case(t: &mut Target, c: &Case) -> (Vec<(String, String)>, bool) {
             window = Some((ip - 128, ms.min(ip + 128)));
         }
     }
-    let bytes = match dump_mem(t.p.pid, &o) {
+    let out = crate::envrun::env_dump(&t.p, &crate::envrun::EnvSpec { opts: o.clone(), plan: crate::envrun::strategy_plan(c.strategy), ..Default::default() }, std::collections::HashMap::new(), None);
+    if c.strategy == 1 && !out.trace.iter().any(|x| x.key.starts_with("pread#")) || c.strategy == 2 && !out.trace.iter().any(|x| x.key.starts_with("peek#")) {
+        fails.push(("MACHINERY".into(), format!("strategy {} was requested but never used", c.strategy)));
+    }
+    let bytes = match out.result {
         DumpResult::Ok(b) => b,
         DumpResult::Err(_) => return (fails, false), // e.g. window in an unreadable mapping: C02's business
         DumpResult::Panic(p) => {
@@ -172,7 +179,7 @@ pub fn run_case(t: &mut Target, c: &Case) -> (Vec<(String, String)>, bool) {
 
 fn cases_for(n: usize, thorough: bool) -> Vec<Case> {
     let mut v = Vec::new();
-    v.push(Case { n, app: vec![], ip: None, limit: false });
+    v.push(Case { n, app: vec![], ip: None, limit: false, strategy: 0 });
     let lens: [u64; 9] = [1, 7, 8, 9, 4095, 4096, 4097, 65536, 1 << 20];
     // single region: placements x alignment x length
     for &l in &lens {
@@ -180,34 +187,49 @@ fn cases_for(n: usize, thorough: bool) -> Vec<Case> {
             if !thorough && n != 1 && a % 3 != 0 {
                 continue;
             }
-            v.push(Case { n, app: vec![(1, 5 * 4096 + a, l)], ip: None, limit: false }); // interior
-            v.push(Case { n, app: vec![(1, a, l)], ip: None, limit: false }); // at/near mapping start
-            v.push(Case { n, app: vec![(1, -1 - a, l)], ip: None, limit: false }); // ending at/near the mapping end (unmapped page after)
+            v.push(Case { n, app: vec![(1, 5 * 4096 + a, l)], ip: None, limit: false, strategy: 0 }); // interior
+            v.push(Case { n, app: vec![(1, a, l)], ip: None, limit: false, strategy: 0 }); // at/near mapping start
+            v.push(Case { n, app: vec![(1, -1 - a, l)], ip: None, limit: false, strategy: 0 }); // ending at/near the mapping end (unmapped page after)
             if l <= 4 * 4096 {
-                v.push(Case { n, app: vec![(2, -1 - a, l)], ip: None, limit: false }); // ending at/near the end before a PROT_NONE page
+                v.push(Case { n, app: vec![(2, -1 - a, l)], ip: None, limit: false, strategy: 0 }); // ending at/near the end before a PROT_NONE page
             }
         }
     }
     // two and three regions: overlapping, duplicate, adjacent
     for &l in &[8u64, 4097] {
-        v.push(Case { n, app: vec![(1, 100, l), (1, 100, l)], ip: None, limit: false });
-        v.push(Case { n, app: vec![(1, 100, l), (1, 104, l)], ip: None, limit: false });
-        v.push(Case { n, app: vec![(1, 100, l), (1, 100 + l as i64, l), (2, 0, 9)], ip: None, limit: false });
-        v.push(Case { n, app: vec![(2, -1, l.min(4096)), (1, -1, l), (1, 0, 1)], ip: None, limit: false });
+        v.push(Case { n, app: vec![(1, 100, l), (1, 100, l)], ip: None, limit: false, strategy: 0 });
+        v.push(Case { n, app: vec![(1, 100, l), (1, 104, l)], ip: None, limit: false, strategy: 0 });
+        v.push(Case { n, app: vec![(1, 100, l), (1, 100 + l as i64, l), (2, 0, 9)], ip: None, limit: false, strategy: 0 });
+        v.push(Case { n, app: vec![(2, -1, l.min(4096)), (1, -1, l), (1, 0, 1)], ip: None, limit: false, strategy: 0 });
     }
     // size-limited dumps (only meaningful with more than 20 threads)
     if n >= 24 {
         for c in v.clone().iter().take(12) {
             v.push(Case { limit: true, ..c.clone() });
+            v.push(Case { limit: true, strategy: 2, ..c.clone() });
+        }
+    }
+    // every case so far again under the two fallback strategies (lengths up to one page for ptrace: it is word-by-word)
+    let base: Vec<Case> = v.clone();
+    for c in &base {
+        if c.strategy != 0 {
+            continue;
+        }
+        let small = c.app.iter().all(|a| a.2 <= 4097);
+        if thorough || c.app.iter().all(|a| a.1.rem_euclid(3) == 0) {
+            v.push(Case { strategy: 1, ..c.clone() });
+            if small {
+                v.push(Case { strategy: 2, ..c.clone() });
+            }
         }
     }
     // crash instruction pointer around mapping edges
     for mi in 0..4usize {
         let size = if mi == 1 { 3 * 4096i64 } else { 4096 };
         for off in [0i64, 1, 127, 128, 129, size / 2, size - 129, size - 128, size - 127, size - 1, size, -1] {
-            v.push(Case { n, app: vec![], ip: Some((mi, off)), limit: false });
+            v.push(Case { n, app: vec![], ip: Some((mi, off)), limit: false, strategy: 0 });
             if off == 127 {
-                v.push(Case { n, app: vec![(1, 7, 9)], ip: Some((mi, off)), limit: false });
+                v.push(Case { n, app: vec![(1, 7, 9)], ip: Some((mi, off)), limit: false, strategy: 0 });
             }
         }
     }
@@ -215,7 +237,7 @@ fn cases_for(n: usize, thorough: bool) -> Vec<Case> {
 }
 
 pub fn run(ctx: &Ctx, rep: &mut Report) {
-    rep.rule = "application regions: {1 region: 4 placements x alignment 0..7 x 9 lengths; 2-3 regions: duplicate / overlapping / adjacent / across both regions} and crash instruction pointers at 12 offsets around the edges of four mappings (1 page r-x, 3 pages r-x, --x, ---p), for thread counts {1, 3, 24 (with spin threads at chosen stack-pointer offsets and a size limit)}; nontrivial = successful dumps with at least one app region or an ip window".into();
+    rep.rule = "application regions: each under the default vectored read and (subset quick / all thorough) forced onto /proc/<pid>/mem and word-by-word ptrace through wildcard libc plans; {1 region: 4 placements x alignment 0..7 x 9 lengths; 2-3 regions: duplicate / overlapping / adjacent / across both regions} and crash instruction pointers at 12 offsets around the edges of four mappings (1 page r-x, 3 pages r-x, --x, ---p), for thread counts {1, 3, 24 (with spin threads at chosen stack-pointer offsets and a size limit)}; nontrivial = successful dumps with at least one app region or an ip window".into();
     if let Some(case) = &ctx.replay {
         let Some(c) = Case::from_json(case) else {
             rep.machinery("bad replay".into());
@@ -263,7 +285,11 @@ pub fn run(ctx: &Ctx, rep: &mut Report) {
                 rep.sample(c.to_json());
             }
             for (k, m) in fails {
-                rep.violation(&k, &m, c.to_json());
+                if k == "MACHINERY" {
+                    rep.machinery(m);
+                } else {
+                    rep.violation(&k, &m, c.to_json());
+                }
             }
         }
     }
